@@ -184,9 +184,15 @@ func init() {
 						_ = rd.UseCases()
 						for _, e := range rd.Entities() {
 							_ = e.Description()
+							if a := e.Address(); a != nil && a.Device != nil {
+								_ = *a.Device
+							}
 							for _, f := range e.Features() {
 								_ = f.Operations()
 								_ = f.Description()
+								if a := f.Address(); a != nil && a.Device != nil {
+									_ = *a.Device
+								}
 							}
 						}
 					}
